@@ -4,6 +4,7 @@ package gofe
 
 import (
 	"fmt"
+	"go/ast"
 	"go/types"
 	"os"
 	"strings"
@@ -21,6 +22,11 @@ type Program struct {
 	Main  *ssa.Package // the package containing the harnesses
 	Sizes types.Sizes
 	Files []string // Go files of the main package (for evidence)
+	// LinkTargets maps the remote name of a `//go:linkname local pkg.name`
+	// directive that sits on a function WITH a body (a "push" linkname, the way
+	// llgo's runtime provides sync.runtime_Semacquire and friends) to that
+	// function: a call to the bodiless pkg.name executes the body llgo supplies.
+	LinkTargets map[string]*ssa.Function
 }
 
 // LoadConfig describes how to load the package under test.
@@ -67,6 +73,32 @@ func Load(lc LoadConfig) (*Program, error) {
 	prog.Build()
 	p := &Program{Prog: prog, Pkgs: pkgs, SSA: spkgs, Main: spkgs[0], Sizes: pkgs[0].TypesSizes}
 	p.Files = append(p.Files, pkgs[0].CompiledGoFiles...)
+	p.LinkTargets = map[string]*ssa.Function{}
+	packages.Visit(pkgs, nil, func(pk *packages.Package) {
+		if !strings.HasPrefix(pk.PkgPath, "github.com/goplus/llgo/") {
+			return
+		}
+		sp := prog.Package(pk.Types)
+		if sp == nil {
+			return
+		}
+		for _, f := range pk.Syntax {
+			for _, d := range f.Decls {
+				fd, ok := d.(*ast.FuncDecl)
+				if !ok || fd.Body == nil || fd.Doc == nil || fd.Recv != nil {
+					continue
+				}
+				for _, c := range fd.Doc.List {
+					fs := strings.Fields(c.Text)
+					if len(fs) == 3 && fs[0] == "//go:linkname" && fs[1] == fd.Name.Name && strings.Contains(fs[2], ".") {
+						if fn := sp.Func(fd.Name.Name); fn != nil {
+							p.LinkTargets[fs[2]] = fn
+						}
+					}
+				}
+			}
+		}
+	})
 	return p, nil
 }
 
